@@ -287,6 +287,10 @@ func (c *monC12) After(m *Machine, s *Step) *Violation {
 		}
 		post := s.Post.Users[who]
 		success := accepted
+		if after := r.UID(); strings.HasSuffix(op.K, "validate") && accepted && after != "" && after != who {
+			// the code was checked against who (the session's user, else the parked login): nobody else may come out logged in
+			return violation("C12", "code-of-one-account-logged-in-another:"+op.K, "%s checked the submitted value against %q, yet the session now names %q", op.K, who, after)
+		}
 		if strings.HasSuffix(op.K, "remove") {
 			success = r.Rec.HandlerErr == nil && ((kind == "totp" && pre.TOTPSecretKey != "" && post.TOTPSecretKey == "") || (kind == "sms" && pre.SMSPhone != "" && post.SMSPhone == ""))
 		}
@@ -431,7 +435,7 @@ func (c *monC12) End(m *Machine) *Violation {
 var kindsC12 = []wk{
 	{"otplogin", 22}, {"otpadd", 10}, {"otpclear", 2}, {"login", 12}, {"totpvalidate", 12}, {"smsvalidate", 12}, {"smsresend", 3},
 	{"regen", 1}, {"newsess", 5}, {"logout", 4}, {"advance", 4}, {"totpremove", 2}, {"smsremove", 2},
-	{"snip:otp", 14}, {"snip:2fa", 8}, {"snip:rec2fa", 10}, {"snip:enrolreplay", 3}, {"snip:removereplay", 5}, {"snip:smsfaultreplay", 6},
+	{"snip:otp", 14}, {"snip:2fa", 8}, {"snip:rec2fa", 10}, {"snip:enrolreplay", 3}, {"snip:removereplay", 5}, {"snip:smsfaultreplay", 6}, {"snip:switch2fa", 6},
 }
 
 var profC12 = profile{
